@@ -96,6 +96,45 @@ pub fn scenario(seed: u64, rep: &mut Report) {
         // answering before everyone else
         let coordinated = rng.chance(1, 3);
         let liars = if coordinated { (min + rng.usize(2)).min(nvoters) } else { rng.usize(min + 2) };
+        // In a quarter of the runs an application thread keeps editing the local record (its own
+        // key) while the votes come in, and reads the record back after every edit: no sequence
+        // number may ever stand for two different records, whoever made them.
+        let app_stop = std::sync::Arc::new(std::sync::atomic::AtomicBool::new(false));
+        let app_thread = if rng.chance(1, 4) {
+            let d = rig.discv5.clone();
+            let stop = app_stop.clone();
+            rep.count("runs_with_a_concurrent_record_editor");
+            Some(std::thread::spawn(move || {
+                let mut seen: HashMap<u64, Vec<u8>> = HashMap::new();
+                let mut reused: Option<u64> = None;
+                let mut edits = 0u64;
+                let mut n = 0u64;
+                while !stop.load(std::sync::atomic::Ordering::Relaxed) && edits < 200_000 {
+                    n += 1;
+                    if d.enr_insert("app", &n).is_ok() {
+                        edits += 1;
+                    }
+                    for _ in 0..2 {
+                        let e = d.local_enr();
+                        let raw = crate::peer::rlp_ref::encode_record(&e);
+                        match seen.get(&e.seq()) {
+                            Some(old) if *old != raw => reused = Some(e.seq()),
+                            Some(_) => {}
+                            None => {
+                                seen.insert(e.seq(), raw);
+                            }
+                        }
+                    }
+                    if seen.len() > 4096 {
+                        let newest = *seen.keys().max().unwrap();
+                        seen.retain(|s, _| *s + 64 > newest);
+                    }
+                }
+                (edits, reused)
+            }))
+        } else {
+            None
+        };
         let mut votes: Vec<Vote> = Vec::new();
         let mut log: Vec<Value> = Vec::new();
         let mut open: Vec<(RequestId, NodeAddress)> = Vec::new();
@@ -230,6 +269,15 @@ pub fn scenario(seed: u64, rep: &mut Report) {
                     }
                 }
                 prev_enr = now_enr;
+            }
+        }
+        app_stop.store(true, std::sync::atomic::Ordering::Relaxed);
+        if let Some(h) = app_thread {
+            if let Ok((edits, reused)) = h.join() {
+                rep.count_n("concurrent_record_edits", edits);
+                if let Some(seq) = reused {
+                    rep.violation("C17:sequence-number-reused", format!("two different local records carried sequence number {seq} (an application thread was editing the record while votes changed the address)"), json!({"scenario_seed": seed.to_string(), "min": min, "mode": format!("{mode:?}"), "note": "real threads: the interleaving is not reproducible from the seed", "log": log.iter().rev().take(12).rev().cloned().collect::<Vec<_>>()}));
+                }
             }
         }
         rep.evaluations += 1;
